@@ -1525,8 +1525,12 @@ where
                 }
 
                 // Classic Okapi BM25: ln(1 + (N - df + 0.5)/(df + 0.5))
+                // `doc_count` was read before the postings: a concurrent
+                // insert publishes its document before its posting entries,
+                // so `df` can run ahead of it. The collection holds at least
+                // the documents just seen, or the idf would go negative.
                 let df = valid.len() as f32;
-                let idf = ((doc_count - df + 0.5) / (df + 0.5) + 1.0).ln();
+                let idf = ((doc_count.max(df) - df + 0.5) / (df + 0.5) + 1.0).ln();
 
                 // Compute BM25 score for each valid document. `drain` empties the
                 // map while keeping its allocation for the next query term.
